@@ -74,8 +74,11 @@ def gen_patterns(rng, paths, k):
             pat = "**/" + parts[-1]
         elif r < 0.65:
             pat = "/".join(parts[:-1] + ["*.py"]) if len(parts) > 1 else "*.py"
-        elif r < 0.72:
+        elif r < 0.69:
             pat = "**/" + parts[-1][0] + "?.py"
+        elif r < 0.72:
+            # '?' / a character class WITHOUT any '*': still a glob, not a literal path
+            pat = "/".join(parts[:-1] + [parts[-1][0] + rng.choice(["?.py", "[12b].py", "[!z].py"])])
         elif r < 0.8:
             pat = "[ab]*.py" if rng.random() < 0.5 else "**/[!a]*.py"
         elif r < 0.86:
@@ -105,6 +108,21 @@ class C05(Check):
         "trigger set is self-calibrated by a separate execution on neutral paths, never taken from the corpus",
     ]
     budgets = {"quick": {"n": 60, "wall": 170}, "thorough": {"n": 800, "wall": 1500}}
+
+    def extra_batches(self, tier):
+        """fixed pattern shapes: '?' and character classes without any '*', hidden directories, './'-free literal paths"""
+        import random
+
+        r = G.pick_snippet(random.Random("c05-fixed"), "pixee:python/remove-unnecessary-f-str")
+        paths = ["pkg/ab.py", "pkg/x1.py", "pkg/x2.py", "pkg/y1.py", ".hidden/h.py", "hidden/v.py", "top.py"]
+        files = [{"path": p, "snippets": [r["idx"]], "layout": {}, "trigger_of": "pixee:python/remove-unnecessary-f-str"} for p in paths]
+        exps = []
+        for inc, exc in ((["pkg/x?.py"], []), ([], ["pkg/x[12].py"]), (["pkg/[!x]?.py", "top.py"], []), (["pkg/x?.py:@0"], ["pkg/x1.py:@0"]),
+                         ([".hidden/**"], []), ([], [".hidden/**"]), (["hidden/**", "pkg/ab.py"], ["pkg/a?.py"])):
+            exps.append({"kind": "fixed:pattern-shapes", "mode": "ff", "include": ["pixee:python/remove-unnecessary-f-str"], "files": files, "symlinks": {},
+                         "outside": {}, "path_include": inc, "path_exclude": exc, "sched": {"seed": 0, "policy": "fifo", "line_p": 0.0},
+                         "workers": None, "enum_seed": None})
+        return exps
 
     def gen(self, rng, i, tier):
         mode = "ff" if rng.random() < 0.65 else "sast"
